@@ -5,7 +5,7 @@
 (* number codec are ASSUMEd over the same operators whose table is exported.            *)
 EXTENDS Consensus, Json
 
-\* hash results are exported as free-constructor terms <<-2, fnid>> \o x; the harness evaluates them
+\* hash results are exported as free-constructor terms <<-2, fnid, len>> \o x; the harness evaluates them
 Mode == IOEnv.MODE
 
 \* ---- stacks ------------------------------------------------------------------------------
